@@ -152,6 +152,12 @@ def run_unit(unit, keep=False, rlimit=None, repo=REPO, extra_verus_args="", rend
             sp_out = []
             for s in spans:
                 f_, l_ = locate(s["file_name"], s["line_start"])
+                if l_ is None:
+                    for ln_ in range(s["line_start"], s.get("line_end", s["line_start"]) + 1):
+                        l2 = table.get(s["file_name"], {}).get("labels", {}).get(str(ln_))
+                        if l2:
+                            l_ = l2
+                            break
                 sp_out.append({"file": s["file_name"], "line": s["line_start"], "label": s.get("label"), "fn": f_,
                                "text": srcline(s["file_name"], s["line_start"])[:200]})
                 if f_ and not fn:
@@ -187,6 +193,9 @@ def run_unit(unit, keep=False, rlimit=None, repo=REPO, extra_verus_args="", rend
                 e["rendered"] = (d.get("rendered") or "")[:1500]
                 hard.append(e)
             res["errors"].append(e)
+        pm = re.search(r"panicked at ([^\n]*)\n([^\n]*)", p.stderr or "")
+        if pm:
+            hard.append({"message": "verus front-end panic: " + pm.group(1) + " " + pm.group(2)})
         res["assumption_scan"] = scan_assumptions(ws, [f["file"] for f in gmap["files"]])
         if hard:
             res["status"] = "undecided"
